@@ -759,6 +759,7 @@ func runC07(c *Ctx) {
 				// list-carrying types: record layout per element
 				if lr := c.c07List(t); lr.decided {
 					decidedN++
+					decidedNames = append(decidedNames, name)
 					st, d := report.Discharged, ""
 					if len(lr.problems) > 0 {
 						st, d = report.Violated, strings.Join(lr.problems, "; ")
@@ -853,11 +854,12 @@ func runC07(c *Ctx) {
 	// ---- helper rules
 	c.c07Helpers()
 	c.c07NarrowArith()
+	c.c07ParamTable()
 	R.Require("E3.roundtrip-layout", 24, "")
 	R.Require("E3.parser-reads-written-bytes", 24, "")
 	R.Require("S.codec-helpers", 5, "")
 	R.Explain = "Round trip is decided structurally for the message types whose encoder is loop-free: the encoder's output layout is reconstructed symbolically (writes, appends, helper calls named by the receiver's fields), the parser's reading of each field likewise, and every writer placement must be a reader placement of the same field with the inverse form; active-safety dialects are analysed one by one. " +
-		"Types with lists or parameter tables (encoder loops, reflection) are listed as not covered; value-level facts (BCD digits, GBK tables, numeric ranges) are not decided. Related structural checks: C08 (0x0200 additions), C16 (0x9212), C03/C10 (parsers never over-read)."
+		"Types with variable-size records (encoder loops the list comparison does not describe) are listed as not covered; the terminal-parameter table (reflection) is decided only structurally (S.param-table: records carry the fields' own ID / Len / Value); value-level facts (BCD digits, GBK tables, numeric ranges) are not decided. Related structural checks: C08 (0x0200 additions), C16 (0x9212), C03/C10 (parsers never over-read)."
 }
 
 func (c *Ctx) c07Helpers() {
@@ -940,10 +942,16 @@ func (c *Ctx) c07Helpers() {
 	}
 	// the BCD time helpers are digit transcoders: the layout comparison keeps them symbolic as inverse forms of each
 	// other, which holds for every 6-byte field only if neither interprets the digits (as a calendar date, as a number)
-	for _, name := range []string{"Time2BCD", "BCD2Time"} {
+	c.bcdTimeHelpersRule("S.codec-helpers", []string{"Time2BCD", "BCD2Time"})
+}
+
+// bcdTimeHelpersRule (shared by C07 and C08): the named BCD time helpers move digits, they do not interpret them.
+func (c *Ctx) bcdTimeHelpersRule(rule string, names []string) {
+	R := c.R
+	for _, name := range names {
 		fn := c.P.Func("protocol/utils", name)
 		if fn == nil {
-			R.Add("S.codec-helpers", name, "", report.Violated, "helper not found")
+			R.Add(rule, name, "", report.Violated, "helper not found")
 			continue
 		}
 		ok, d := true, ""
@@ -979,7 +987,7 @@ func (c *Ctx) c07Helpers() {
 						}
 						if pk == "time" || pk == "strconv" || pk == "math/big" {
 							ok = false
-							d = fmt.Sprintf("%s calls %s at %s: the digits are interpreted (calendar / number), so BCD fields that are not real dates - the all-zero 'no time condition', month 00 or 20, hour 24 - do not survive Parse followed by Encode", name, sc.String(), c.P.RelPos(ins.Pos()))
+							d = fmt.Sprintf("%s calls %s at %s: the digits are interpreted (calendar / number), so BCD fields that are not real dates - the all-zero 'no time condition', month 00 or 20, hour 24 - do not survive Parse followed by Encode, and a two-digit year is mapped by the library's pivot (69..99 become 19YY) instead of the protocol's 20YY", name, sc.String(), c.P.RelPos(ins.Pos()))
 						}
 					}
 				}
@@ -990,7 +998,7 @@ func (c *Ctx) c07Helpers() {
 		if !ok {
 			st = report.Violated
 		}
-		R.Add("S.codec-helpers", name+" / transcodes digits without interpreting them (no time / strconv)", c.P.RelPos(fn.Pos()), st, d)
+		R.Add(rule, name+" / transcodes digits without interpreting them (no time / strconv)", c.P.RelPos(fn.Pos()), st, d)
 	}
 }
 
@@ -1004,15 +1012,15 @@ func derefNamedType(t types.Type) (*types.Named, bool) {
 
 // c07NarrowArith: in parsers, arithmetic carried out in uint8/uint16 must not feed a length comparison or a slice bound
 // (the product / sum wraps modulo 256 / 65536 before it is widened).
-func (c *Ctx) c07NarrowArith() { c.narrowArith(nil, 30) }
+func (c *Ctx) c07NarrowArith() { c.narrowArith(nil, 30, true) }
 
 // narrowArith: shared by C03, C07, C08. keep == nil: all parser functions of protocol/model.
-func (c *Ctx) narrowArith(keep func(fn *ssa.Function) bool, minFns int) {
+func (c *Ctx) narrowArith(keep func(fn *ssa.Function) bool, minFns int, withEncoders bool) {
 	R := c.R
-	R.Rules["S.narrow-arith"] = "in the body parsers, a multiplication / addition / shift carried out in uint8 or uint16 does not flow into a comparison with a length or into a slice bound or index: it wraps before it is widened, so bodies whose count field is large are rejected or mis-sliced although they are consistent"
+	R.Rules["S.narrow-arith"] = "in the body parsers and encoders, a multiplication / addition / shift carried out in uint8 or uint16 does not flow into a comparison with a length or into a slice bound or index: it wraps before it is widened, so bodies whose count field is large are rejected, mis-sliced or written over themselves although they are consistent"
 	n := 0
 	for _, fn := range c.RepoFuncs("protocol/model") {
-		if !strings.HasPrefix(strings.ToLower(fn.Name()), "parse") {
+		if ln := strings.ToLower(fn.Name()); !strings.HasPrefix(ln, "parse") && !(withEncoders && strings.HasPrefix(ln, "encode")) {
 			continue
 		}
 		if keep != nil && !keep(fn) {
@@ -1187,4 +1195,209 @@ func derefStr(p *string) string {
 		return "?"
 	}
 	return *p
+}
+
+// c07ParamTable: the terminal-parameter table (0x8103 / 0x0104 bodies) is encoded by reflection over the fields of
+// TerminalParamDetails, which the layout extraction cannot take apart. Decided structurally instead:
+// (a) the generic record encoder ParamContent[T].encode puts the receiver's own ID into bytes 0..3, its own Len into
+// byte 4 and hands its own Value to the append function, and writes nothing else into the receiver;
+// (b) the table encoder hands each parameter to that record encoder exactly as the field holds it - the value of the
+// type switch / map lookup, not a copy whose ID, Len or Value was rewritten on the way.
+// Whether Len matches the encoded width of Value is the caller's obligation (the parser fills it from the wire).
+func (c *Ctx) c07ParamTable() {
+	R := c.R
+	R.Rules["S.param-table"] = "terminal parameters are encoded as the parser stored them: the record encoder ParamContent[T].encode writes the receiver's ID (bytes 0..3), Len (byte 4) and hands Value to the append function; the table encoder passes every parameter to it unmodified (the length byte the parser read from the wire is the length byte written back)"
+	var gens []*ssa.Function
+	seenGen := map[*ssa.Function]bool{}
+	table := c.P.Method("protocol/model", "TerminalParamDetails", "encode")
+	if table == nil {
+		R.Fatal("anchor TerminalParamDetails.encode not found")
+		return
+	}
+	// the record encoder: the function behind the encode calls of the table encoder (through the instantiation wrappers)
+	isRecord := func(sc *ssa.Function) *ssa.Function {
+		if sc == nil || (sc.Name() != "encode" && !strings.HasPrefix(sc.Name(), "encode[")) || sc.Signature.Recv() == nil {
+			return nil
+		}
+		rt := sc.Signature.Recv().Type()
+		if p, isP := rt.(*types.Pointer); isP {
+			rt = p.Elem()
+		}
+		if nt, isN := rt.(*types.Named); !isN || nt.Obj().Name() != "ParamContent" {
+			return nil
+		}
+		body := sc
+		for depth := 0; depth < 3 && strings.Contains(body.Synthetic, "wrapper"); depth++ {
+			var inner *ssa.Function
+			for _, b := range body.Blocks {
+				for _, ins := range b.Instrs {
+					if call, isC := ins.(*ssa.Call); isC && call.Call.StaticCallee() != nil && strings.HasPrefix(call.Call.StaticCallee().Name(), "encode") {
+						inner = call.Call.StaticCallee()
+					}
+				}
+			}
+			if inner == nil {
+				break
+			}
+			body = inner
+		}
+		if o := body.Origin(); o != nil && o.Blocks != nil && body.Blocks == nil {
+			body = o
+		}
+		return body
+	}
+	for _, b := range table.Blocks {
+		for _, ins := range b.Instrs {
+			if call, isC := ins.(*ssa.Call); isC {
+				if g := isRecord(call.Call.StaticCallee()); g != nil && g.Blocks != nil && !seenGen[g] {
+					seenGen[g] = true
+					gens = append(gens, g)
+				}
+			}
+		}
+	}
+	if len(gens) == 0 {
+		R.Fatal("anchor ParamContent[T].encode not found behind the calls of TerminalParamDetails.encode")
+		return
+	}
+	// (a)
+	add := func(key string, ok bool, pos, why string) {
+		st := report.Discharged
+		if !ok {
+			st = report.Violated
+		} else {
+			why = ""
+		}
+		R.Add("S.param-table", key, pos, st, why)
+	}
+	for _, gen := range gens {
+		recName := strings.TrimPrefix(shortFn(gen), "protocol/model.")
+		if k := strings.Index(recName, ").encode"); k > 0 {
+			recName = strings.TrimPrefix(recName[:k], "(") + ".encode"
+		}
+		recvField := func(v ssa.Value) string {
+			switch x := v.(type) {
+			case *ssa.Field:
+				if x.X == ssa.Value(gen.Params[0]) {
+					return x.X.Type().Underlying().(*types.Struct).Field(x.Field).Name()
+				}
+			case *ssa.UnOp:
+				fa, isFA := x.X.(*ssa.FieldAddr)
+				if !isFA {
+					return ""
+				}
+				al, isAl := fa.X.(*ssa.Alloc)
+				if !isAl {
+					return ""
+				}
+				for _, ref := range *al.Referrers() {
+					if st, isSt := ref.(*ssa.Store); isSt && st.Addr == ssa.Value(al) && st.Val != ssa.Value(gen.Params[0]) {
+						return ""
+					}
+				}
+				return fa.X.Type().Underlying().(*types.Pointer).Elem().Underlying().(*types.Struct).Field(fa.Field).Name()
+			}
+			return ""
+		}
+		idOK, lenOK, valOK, pure := false, false, false, true
+		pureWhy := ""
+		for _, b := range gen.Blocks {
+			for _, ins := range b.Instrs {
+				switch x := ins.(type) {
+				case *ssa.Call:
+					if nm := calleeName(&x.Call); strings.HasSuffix(nm, "PutUint32") && len(x.Call.Args) == 3 {
+						if sl, isSl := x.Call.Args[1].(*ssa.Slice); isSl {
+							lo, hasLo := int64(0), true
+							if sl.Low != nil {
+								lo, hasLo = constInt(sl.Low)
+							}
+							if hasLo && lo == 0 && recvField(x.Call.Args[2]) == "ID" {
+								idOK = true
+							}
+						}
+					}
+					if x.Call.Value == ssa.Value(gen.Params[1]) && len(x.Call.Args) == 2 && recvField(x.Call.Args[1]) == "Value" {
+						valOK = true
+					}
+				case *ssa.Store:
+					if ia, isIA := x.Addr.(*ssa.IndexAddr); isIA {
+						if k, isK := constInt(ia.Index); isK && k == 4 && recvField(x.Val) == "Len" {
+							lenOK = true
+						}
+					}
+					if fa, isFA := x.Addr.(*ssa.FieldAddr); isFA {
+						if _, isAl := fa.X.(*ssa.Alloc); isAl {
+							pure, pureWhy = false, "the record encoder stores into a field of its receiver at "+c.P.RelPos(x.Pos())
+						}
+					}
+				}
+			}
+		}
+		gp := c.P.RelPos(gen.Pos())
+		add(recName+" / bytes 0..3 are the receiver's ID", idOK, gp, "no PutUint32 of the receiver's ID at the start of the record")
+		add(recName+" / byte 4 is the receiver's Len", lenOK, gp, "byte 4 of the record is not the receiver's Len field")
+		add(recName+" / the append function receives the receiver's Value", valOK, gp, "the append function is not called with the receiver's Value")
+		add(recName+" / receiver not rewritten", pure, gp, pureWhy)
+
+	}
+	// (b)
+	n := 0
+	for _, b := range table.Blocks {
+		for _, ins := range b.Instrs {
+			call, isC := ins.(*ssa.Call)
+			if !isC {
+				continue
+			}
+			if isRecord(call.Call.StaticCallee()) == nil || len(call.Call.Args) == 0 {
+				continue
+			}
+			n++
+			ok, why := false, "the parameter handed to the record encoder is not the value the field holds"
+			switch x := call.Call.Args[0].(type) {
+			case *ssa.Extract:
+				switch x.Tuple.(type) {
+				case *ssa.TypeAssert, *ssa.Lookup:
+					ok = true
+				}
+			case *ssa.TypeAssert, *ssa.Lookup:
+				ok = true
+			case *ssa.UnOp:
+				switch a := x.X.(type) {
+				case *ssa.FieldAddr:
+					ok = true // t.<field>.encode(...)
+					_ = a
+				case *ssa.Alloc:
+					ok = true
+					for _, ref := range *a.Referrers() {
+						switch r := ref.(type) {
+						case *ssa.Store:
+							if r.Addr != ssa.Value(a) {
+								continue
+							}
+							if ex, isEx := r.Val.(*ssa.Extract); isEx {
+								if _, isTA := ex.Tuple.(*ssa.TypeAssert); isTA {
+									continue
+								}
+							}
+							if _, isTA := r.Val.(*ssa.TypeAssert); isTA {
+								continue
+							}
+							ok, why = false, "the local copy of the parameter is assigned something other than the field's value at "+c.P.RelPos(r.Pos())
+						case *ssa.FieldAddr:
+							fname := a.Type().Underlying().(*types.Pointer).Elem().Underlying().(*types.Struct).Field(r.Field).Name()
+							for _, r2 := range *r.Referrers() {
+								if st2, isSt := r2.(*ssa.Store); isSt && st2.Addr == ssa.Value(r) {
+									ok, why = false, fmt.Sprintf("%s of the parameter is rewritten at %s before it is encoded: the record no longer carries what the field held (a length byte recomputed from the UTF-8 text differs from the GBK length on the wire)", fname, c.P.RelPos(st2.Pos()))
+								}
+							}
+						}
+					}
+				}
+			}
+			add(fmt.Sprintf("TerminalParamDetails.encode / %s", c.constructOf(table, call)), ok, c.P.RelPos(call.Pos()), why)
+		}
+	}
+	R.Notes["param_table_record_encoder_calls"] = n
+	R.Require("S.param-table", 4+7, "")
+	R.Notes["param_table_record_encoders"] = len(gens)
 }
